@@ -48,6 +48,7 @@ type ctx struct {
 	r              *core.Run
 	childSem       chan struct{} // concurrent batch children
 	soloSem        chan struct{} // concurrent solo children
+	deepSem        chan struct{} // concurrent deep nesting cases
 	tlcSem         chan struct{} // concurrent JVMs
 	mu             sync.Mutex
 	canon          string
@@ -815,7 +816,7 @@ func (c *ctx) nestFamily(wg *sync.WaitGroup) []nestKind {
 		if r.Thorough() {
 			keys = append(keys, evalKey{Loader: ls[len(ls)-1], FS: []int{fsMinify, fsLower, fsEsmAll, fsDialect}[(nc.K+nc.D)%4], Mode: "transform"})
 		}
-		if r.Thorough() {
+		if r.Thorough() && nc.M == "balanced" {
 			keys = append(keys, evalKey{Loader: ls[0], FS: fsMinify, Mode: "transform"}, evalKey{Loader: ls[len(ls)-1], FS: fsLower, Mode: "transform"})
 		}
 		for _, key := range keys {
@@ -825,6 +826,9 @@ func (c *ctx) nestFamily(wg *sync.WaitGroup) []nestKind {
 			wg.Add(1)
 			go func() {
 				defer wg.Done()
+				// one slot at a time, and the budget is looked at when the slot is free
+				c.deepSem <- struct{}{}
+				defer func() { <-c.deepSem }()
 				if c.expired() {
 					atomic.AddInt64(&c.deepSkipped, 1)
 					return
@@ -855,7 +859,7 @@ func (c *ctx) nestFamily(wg *sync.WaitGroup) []nestKind {
 // ---------------------------------------------------------------------------
 
 func Run(r *core.Run) {
-	c := &ctx{r: r, childSem: make(chan struct{}, 2), soloSem: make(chan struct{}, 2), tlcSem: make(chan struct{}, 4),
+	c := &ctx{r: r, childSem: make(chan struct{}, 2), soloSem: make(chan struct{}, 3), deepSem: make(chan struct{}, 2), tlcSem: make(chan struct{}, 4),
 		byLang: map[string]int64{}, byLoader: map[string]int64{}, byOp: map[string]int64{}, reported: map[string]bool{}, skippedBatches: map[string]int64{},
 		queue: map[string][]batchIn{}, dispatched: map[string]int{}, sampled: map[string]int{}}
 	c.qcond = sync.NewCond(&sync.Mutex{})
